@@ -242,14 +242,14 @@ func buildPlan(id string, pinned map[string]string, tier string) *Plan {
 		p.Trusted = []string{"ring layer over fr.Element (C01 contracts); Element.Exp is an uninterpreted power a^k at this layer",
 			"math/big.NewInt yields the mathematical integer of its argument (assumed contract of math/big)",
 			"fft.Generator(n) is an opaque call (its result is the generator the property speaks about: captured at the call site)",
-			"identical-slice aliasing is enumerated (option slicealias); partially overlapping slices are outside the model"}
+			"slice aliasing is enumerated (option slicealias prefix): every set partition of the slice operands into classes that share their backing array and start, with independent lengths (identical slices and the p = q[:k] reuse idiom); slices that overlap with different starts are outside the model"}
 		p.Assumptions = []string{"Polynomial.Eval and MultiLin.Sum require a non-empty coefficient vector (they index the last / first entry unconditionally: an empty vector panics)",
 			"iop.Polynomial.GetCoeff: contract for the Regular layout, 0 <= shift <= 2^20, 0 <= i <= 2^40 (machine-integer range of i + rho*shift); a negative shift makes the Go remainder negative and panics (not repaired: recorded as an observation)",
 			"iop.Polynomial.Evaluate: size >= 0; explicit panics (fft.Generator refusing the size) are refusals, not results"}
 		p.NotCovered = []string{"evaluation in the bit-reversed layout; in Lagrange bases only the value at the points of the domain is under contract (the stored evaluation is returned), the barycentric formula away from the domain is not",
 			"basis and layout conversions (FFT, bit reversal), ratios, quotient by the vanishing polynomial, expression evaluation, serialisation: not under contract",
 			"InterpolateOnRange, MultiLin.Evaluate / Eq / FoldParallel, pools: not under contract"}
-		p.Note = "Dense polynomials: Eval is Horner's value of sum p[j] X^j (recursive specification); Add, Sub, Scale, ScaleInPlace, Add/SubConstantInPlace, Set, Clone, Equal, SetZero, MultiLin.Fold / Add / Sum / Clone and EvalEq act coefficient-wise as their definitions say, with the result length prescribed, for all identical-slice aliasings of their operands. IOP polynomials: evaluate returns the stored evaluation at every point of the domain in Lagrange form (Regular layout); Evaluate passes exactly base * w^shift to the evaluation of the shared coefficient vector, for every integer shift, with w the generator of order Size and base = x (or x / coset in LagrangeCoset form); Clone / ShallowClone / NewPolynomial / Shift preserve every field of the object (shift, size, coset, form, coefficients); GetCoeff reads entry (i + (n/size) * shift) mod n in the Regular layout."
+		p.Note = "Dense polynomials: Eval is Horner's value of sum p[j] X^j (recursive specification); Add, Sub, Scale, ScaleInPlace, Add/SubConstantInPlace, Set, Clone, Equal, SetZero, MultiLin.Fold / Add / Sum / Clone and EvalEq act coefficient-wise as their definitions say, with the result length prescribed, for all same-start aliasings of their operands (identical slices, and prefixes of one another). IOP polynomials: evaluate returns the stored evaluation at every point of the domain in Lagrange form (Regular layout); Evaluate passes exactly base * w^shift to the evaluation of the shared coefficient vector, for every integer shift, with w the generator of order Size and base = x (or x / coset in LagrangeCoset form); Clone / ShallowClone / NewPolynomial / Shift preserve every field of the object (shift, size, coset, form, coefficients); GetCoeff reads entry (i + (n/size) * shift) mod n in the Regular layout."
 		return p
 	case "C19":
 		p := &Plan{ID: id}
@@ -269,6 +269,21 @@ func buildPlan(id string, pinned map[string]string, tier string) *Plan {
 		}
 		for _, c := range smallExts {
 			p.Units = append(p.Units, Unit{Pkg: "./" + c.Rel, Tags: "", Groups: []string{"tower"}, MultiPartOnly: true})
+		}
+		// points (short Weierstrass) and dense polynomials: the same functions as under C02 / C20, restricted to those
+		// with several alias partitions
+		seen := map[string]bool{}
+		for _, c := range pointCfgs {
+			g := strings.ToLower(c.Point)
+			if seen[c.Rel+g] {
+				continue
+			}
+			seen[c.Rel+g] = true
+			p.Units = append(p.Units, Unit{Pkg: "./" + c.Rel, Tags: "", Groups: []string{g}, MultiPartOnly: true})
+		}
+		p.Units = append(p.Units, Unit{Pkg: "./ecc/stark-curve", Tags: "", Groups: []string{"g1"}, MultiPartOnly: true})
+		for _, pk := range polyPkgs("/repo") {
+			p.Units = append(p.Units, Unit{Pkg: pk, Tags: "", Groups: []string{"polynomial"}, MultiPartOnly: true})
 		}
 		p.Note = "Every function with two or more pointer operands of the same type is verified once per set partition of those operands (exact points-to per partition); postconditions are over old() values and the frame clause forbids writes to non-destination operands."
 		return p
